@@ -41,7 +41,12 @@ PPL::Grid::Grid(const Grid& y, Complexity_Class)
     status(y.status),
     space_dim(y.space_dim),
     dim_kinds(y.dim_kinds) {
-  if (space_dim == 0) {
+  if (y.marked_empty()) {
+    // The congruences of an empty grid are not flagged as up-to-date:
+    // build the inconsistent system, as operator=() does.
+    set_empty();
+  }
+  else if (space_dim == 0) {
     con_sys = y.con_sys;
     gen_sys = y.gen_sys;
   }
